@@ -176,7 +176,7 @@ def run(ctx):
              'application runs between the connected-test and the mark (a '
              'send can report the loss of that very transport synchronously, '
              'and another thread gets the whole duration of the send to pass '
-             'the same test)', floor=2)
+             'the same test)', floor=0)
     from .common import effects
     eff = effects(ctx)
     for fname in ('disconnect', '_handle_disconnect'):
@@ -215,7 +215,9 @@ def run(ctx):
                           t0.lineno, marks[0].lineno),
                       where=where(f, between[0].node if between else None))
         if not k:
-            raise AnalysisError(construct + ': no test/mark path')
+            # no connected-test in front of the mark: that is the gate
+            # rule's (C04.R2) violation, nothing to measure here
+            ctx.info(construct + ': no test/mark pair for C20.R5')
     ctx.rule('C20.R4', 'whoever marks the client runs the disconnect handler: '
              'every path with a pre_disconnect mark triggers the '
              '\'disconnect\' event exactly once after it, whatever it '
